@@ -21,6 +21,12 @@ const (
 	maxRTPPacketSize = 1500
 )
 
+// MaxMediaPackets03 is the maximum number of media packets that a single FlexFEC-03 packet can protect:
+// the mask has 15 + 31 + 63 = 109 bits, so the packet at offset 109 from the base sequence number
+// can not be expressed.
+// https://datatracker.ietf.org/doc/html/draft-ietf-payload-flexible-fec-scheme-03#section-4.2
+const MaxMediaPackets03 uint32 = 109
+
 var bufferPool = sync.Pool{ //nolint:gochecknoglobals
 	New: func() any {
 		b := make([]byte, maxRTPPacketSize)
@@ -45,6 +51,11 @@ func (f FlexEncoder03Factory) NewEncoder(payloadType uint8, ssrc uint32) FlexEnc
 	return NewFlexEncoder03(payloadType, ssrc)
 }
 
+// MaxMediaPackets returns the largest batch of media packets the encoders of this factory can protect.
+func (f FlexEncoder03Factory) MaxMediaPackets() uint32 {
+	return MaxMediaPackets03
+}
+
 // NewFlexEncoder03 creates new FlexFEC-03 encoder.
 func NewFlexEncoder03(payloadType uint8, ssrc uint32) *FlexEncoder03 {
 	return &FlexEncoder03{
@@ -55,10 +66,16 @@ func NewFlexEncoder03(payloadType uint8, ssrc uint32) *FlexEncoder03 {
 }
 
 // EncodeFec returns a list of generated RTP packets with FEC payloads that protect the specified mediaPackets.
-// This method returns nil in case of missing RTP packets in the mediaPackets array or packets passed out of order.
+// This method returns nil in case of missing RTP packets in the mediaPackets array or packets passed out of order,
+// and when there are more than MaxMediaPackets03 media packets.
 func (flex *FlexEncoder03) EncodeFec(mediaPackets []rtp.Packet, numFecPackets uint32) []rtp.Packet {
 	// Check if mediaPackets is empty
 	if len(mediaPackets) == 0 {
+		return nil
+	}
+
+	// The FlexFEC-03 mask can not name more than MaxMediaPackets03 packets.
+	if len(mediaPackets) > int(MaxMediaPackets03) {
 		return nil
 	}
 
